@@ -147,7 +147,7 @@ class Trace:
                 h.update(b"A")
                 h.update(str(p.dtype).encode())
                 h.update(struct.pack("<%dq" % p.ndim, *p.shape) if p.ndim else b"s")
-                h.update(np.ascontiguousarray(p).tobytes())
+                h.update(_array_bytes(p))
             elif isinstance(p, float):
                 h.update(b"F" + repr(p).encode())
             elif isinstance(p, (bytes, bytearray)):
@@ -179,9 +179,24 @@ class Trace:
         return self.sched.hexdigest()[:24]
 
 
+def _array_bytes(p):
+    """Canonical bytes of an array.  Extended-precision floats (x86 80-bit values in 16-byte
+    slots) carry padding bytes whose content is arbitrary: hashing tobytes() made the event
+    log differ between two executions of the same run.  They are hashed as (float64 part,
+    float64 remainder), which captures every value bit."""
+    if p.dtype.kind in "fc" and p.dtype.itemsize > (8 if p.dtype.kind == "f" else 16):
+        if p.dtype.kind == "c":
+            return _array_bytes(p.real) + _array_bytes(p.imag)
+        with np.errstate(all="ignore"):
+            hi = p.astype(np.float64)
+            lo = np.where(np.isfinite(hi), (p - hi), 0).astype(np.float64)
+        return np.ascontiguousarray(hi).tobytes() + np.ascontiguousarray(lo).tobytes()
+    return np.ascontiguousarray(p).tobytes()
+
+
 def _short(p):
     if isinstance(p, np.ndarray):
-        return f"<array {p.dtype}{list(p.shape)} {hashlib.sha256(np.ascontiguousarray(p).tobytes()).hexdigest()[:10]}>"
+        return f"<array {p.dtype}{list(p.shape)} {hashlib.sha256(_array_bytes(p)).hexdigest()[:10]}>"
     return str(p)
 
 
